@@ -156,6 +156,7 @@ func (p *Prosumer) message() {
 				}
 				p.onError(err)
 			}
+			err = nil // with no subscription left there is nothing to restore
 			p.callbacks.Range(func(key, value interface{}) bool {
 				if _, err = p.proxy.subscribe(key.(string)); err != nil {
 					return false
